@@ -11,6 +11,7 @@ import (
 	"runtime/debug"
 	"sort"
 	"strings"
+	"sync"
 	"time"
 
 	"golang.org/x/tools/go/ssa"
@@ -358,8 +359,39 @@ func (e *Engine) known(c *Term) (val bool, ok bool) {
 
 // check asks the primary solver and, on unknown/time-out, the fallback back ends (other solver
 // implementations, long-lived, started lazily). A Sat model from a fallback is re-validated.
+var (
+	qstatOn = os.Getenv("VERIF_QSTAT") != ""
+	qstatMu sync.Mutex
+	qstat   = map[string]int{}
+)
+
+// DumpQStat prints the 25 source positions that issued the most solver queries (debugging aid).
+func DumpQStat() {
+	if !qstatOn {
+		return
+	}
+	type kv struct {
+		k string
+		n int
+	}
+	var l []kv
+	for k, n := range qstat {
+		l = append(l, kv{k, n})
+	}
+	sort.Slice(l, func(i, j int) bool { return l[i].n > l[j].n })
+	for i := 0; i < len(l) && i < 25; i++ {
+		fmt.Fprintf(os.Stderr, "qstat %8d %s\n", l[i].n, l[i].k)
+	}
+}
+
 func (e *Engine) check(extra []*Term) (Result, map[string]uint64) {
 	p := e.path
+	if qstatOn && e.curFrame != nil {
+		k := e.curFrame.fn.String() + " " + e.posString(e.curFrame.pos)
+		qstatMu.Lock()
+		qstat[k]++
+		qstatMu.Unlock()
+	}
 	r, m := e.solver.Check(p.pc, extra, p.vars)
 	if r != Unknown {
 		return r, m
